@@ -204,6 +204,8 @@ pub fn build<Ef: SimEffect>(cmd: &Cmd, init: u64, h: &Handles, legacy: Option<&L
 pub enum Order {
     /// a command was aborted through handle `h`; `by` = (task instance, poll number) when a task did it
     Abort { h: u32, by: Option<(u64, u64)> },
+    /// the task instance `inst` was aborted through its join handle
+    AbortTask { inst: u64 },
     /// the task (or join/select branch) labelled `label` produced an output
     Out { label: u32, at: (u64, u64), what: &'static str },
 }
@@ -246,13 +248,24 @@ struct Tracked {
     polls: u64,
 }
 
-fn tracked(inner: BoxFuture<'static, u64>) -> Tracked {
-    let id = NEXT_TASK.with(|n| {
+fn new_task_instance() -> u64 {
+    NEXT_TASK.with(|n| {
         let v = n.get();
         n.set(v + 1);
         v
-    });
+    })
+}
+
+fn tracked(inner: BoxFuture<'static, u64>) -> Tracked {
+    Tracked { inner, id: new_task_instance(), polls: 0 }
+}
+
+fn tracked_as(id: u64, inner: BoxFuture<'static, u64>) -> Tracked {
     Tracked { inner, id, polls: 0 }
+}
+
+fn log_task_abort(inst: u64) {
+    ORDER_LOG.with(|l| l.borrow_mut().push(Order::AbortTask { inst }));
 }
 
 impl Future for Tracked {
@@ -282,6 +295,8 @@ impl Future for YieldOnce {
 
 #[derive(Clone)]
 struct Slot {
+    /// task instance behind the handle (for the order log)
+    inst: u64,
     abort: Arc<dyn Fn() + Send + Sync>,
     join: Arc<dyn Fn() -> BoxFuture<'static, ()> + Send + Sync>,
 }
@@ -439,14 +454,16 @@ fn run_stmts<'a, Ef: SimEffect>(
                     let t = task.clone();
                     let acc = env.acc;
                     let hs = env.handles.clone();
+                    let inst = new_task_instance();
                     let handle = ctx.spawn(move |c| async move {
-                        tracked(interp_with::<Ef>(t, acc, c, BTreeMap::new(), hs)).await;
+                        tracked_as(inst, interp_with::<Ef>(t, acc, c, BTreeMap::new(), hs)).await;
                     });
                     if let Some(slot) = slot {
                         let h2 = handle.clone();
                         env.slots.insert(
                             *slot,
                             Slot {
+                                inst,
                                 abort: Arc::new(move || h2.abort()),
                                 join: Arc::new(move || handle.clone().boxed()),
                             },
@@ -461,6 +478,7 @@ fn run_stmts<'a, Ef: SimEffect>(
                 }
                 Stmt::AbortTask(slot) => {
                     if let Some(s) = env.slots.get(slot) {
+                        log_task_abort(s.inst);
                         (s.abort)();
                     }
                 }
@@ -516,12 +534,13 @@ fn run_stmts<'a, Ef: SimEffect>(
                     let t = task.clone();
                     let acc = env.acc;
                     let hs = env.handles.clone();
+                    let inst = new_task_instance();
                     let handle = ctx.spawn(move |cx| async move {
-                        tracked(interp_full::<Ef>(t, acc, cx, BTreeMap::new(), hs, Some(end))).await;
+                        tracked_as(inst, interp_full::<Ef>(t, acc, cx, BTreeMap::new(), hs, Some(end))).await;
                     });
                     if let Some(slot) = slot {
                         let h2 = handle.clone();
-                        env.slots.insert(*slot, Slot { abort: Arc::new(move || h2.abort()), join: Arc::new(move || handle.clone().boxed()) });
+                        env.slots.insert(*slot, Slot { inst, abort: Arc::new(move || h2.abort()), join: Arc::new(move || handle.clone().boxed()) });
                     }
                 }
                 Stmt::ChanSend(c) => {
